@@ -72,16 +72,17 @@ def run(ctx, rep):
         else:
             val = str(ctx.rng.choice(SCALARS))
         target = {'other': 1}
+        tkey = ctx.rng.choice(['tk', 'tk', 'network:tenant_id', 'ext-parent/id', 'a.b', 'k 1'])
         if ctx.rng.random() < 0.5:
-            rhs = '%(tk)s'
+            rhs = '%(' + tkey + ')s'
             if ctx.rng.random() < 0.85:
                 # target value of any JSON type whose string form is val when possible
-                target['tk'] = ctx.rng.choice([val, val, _typed(val)])
+                target[tkey] = ctx.rng.choice([val, val, _typed(val)])
         else:
             rhs = val.replace('%', '%%')
         scs.append({'rules': {'p': [[lhs + ':' + rhs]]},
                     'queries': [{'rule': 'p', 'target': target, 'creds': creds}],
-                    '_lhs': lhs, '_rhs': rhs, '_path': path})
+                    '_lhs': lhs, '_rhs': rhs, '_path': path, '_tkey': tkey})
     rep.rules.append('%d generic checks: left side a Python literal (both quote styles, ints, floats, booleans, None, containers) '
                      'or a dotted path of depth 1..4 over nested credentials (dicts, lists of dicts, lists of lists, scalars of '
                      'every JSON type incl. values equal to the string form of others); right side literal or %%(key)s '
@@ -92,12 +93,12 @@ def run(ctx, rep):
         q = sc['queries'][0]
         tgt, creds = q['target'], q['creds']
         lhs, rhs = sc['_lhs'], sc['_rhs']
-        if rhs == '%(tk)s':
-            if 'tk' not in tgt:
+        if rhs == '%(' + sc['_tkey'] + ')s':
+            if sc['_tkey'] not in tgt:
                 want, x = False, None
                 rep.stat('missing_target_key')
             else:
-                x = str(tgt['tk'])
+                x = str(tgt[sc['_tkey']])
                 want = None
         else:
             x = rhs.replace('%%', '%')
